@@ -110,6 +110,17 @@ inline FA mkNfa(const NFA& a, char mode) {
 	return aut;
 }
 
+// two operands; when they have the same (non-empty) edge list and are built through the facade they are produced as an application would:
+// as two copies of one automaton that got their own start and final states afterwards (the copies share the copy-on-write transition table)
+inline void mkPair(const NFA& na, const NFA& nb, char mode, FA& a, FA& b) {
+	if (mode == 'F' && !na.edges.empty() && na.edges == nb.edges) {
+		NFA base; base.edges = na.edges; FA m = mkNfa(base, 'F');
+		auto fwd = m.GetAlphabet()->GetSymbolTransl(); FA::SymbolType x = (*fwd)("x");
+		a = m; for (U s : na.starts) a.SetStateStart(s, x); for (U f : na.finals) a.SetStateFinal(f);
+		b = m; for (U s : nb.starts) b.SetStateStart(s, x); for (U f : nb.finals) b.SetStateFinal(f);
+	} else { a = mkNfa(na, mode); b = mkNfa(nb, mode); }
+}
+
 // observation: start states through the public API, final states and edges from the core
 inline NFA obsNfa(const FA& aut) {
 	NFA a;
